@@ -67,3 +67,67 @@ def intensity_nonnegative(ctx):
 
 LEMMAS = [('C05::full_period_coefficient', full_period_coefficient), ('C05::_fft2.ortho', fft2_is_orthonormal),
           ('C05::normalize_power.algebra', normalize_power_algebra), ('C05::intensity_nonnegative', intensity_nonnegative)]
+
+
+# ---------------------------------------------------------------------------------------
+# util.normalize_power on the real code: result = array * kappa with kappa >= 0 and
+# kappa^2 * sum |array|^2 = power, hence sum |result|^2 = power (the C05 "power p" clause)
+
+def _np_contract(dtype):
+    c = contract('lentil.util.normalize_power#%s' % dtype, level='P')
+    c.qualname = 'lentil.util.normalize_power'
+    c.tag = dtype
+
+    def params(ctx):
+        a = array(ctx, 'array', shape2(ctx, 'a'), dtype)
+        p = ctx.fresh_real('power')
+        ctx.assume(p > 0)
+        return {'array': a, 'power': p}
+    c.params = params
+    c.modifies = set()
+
+    @c.post('scaled_to_power_p')
+    def _(ctx, env0, env, out):
+        from lvc import prove
+        a, p, res = env0['array'], env0['power'], out.value
+        n, m = a.shape
+        total = S.sigma(0, n, lambda i: S.sigma(0, m, lambda j: S.cabs2(a.at((i, j)))))
+        name = 'util.normalize_power::%%s[%s]' % dtype
+        if getattr(ctx, 'replaying', False):
+            v = prove.expand_sums(ctx, total)
+            if v is None:
+                return None
+        else:
+            # the code divides by exactly one finite sum, and that sum is the total power sum |a|^2
+            named = prove.named_sums(ctx)
+            ctx.oblige(name % 'divides_by_one_sum', len(named) == 1, info={'sums': len(named)})
+            if len(named) != 1:
+                return None
+            v, s = named[0]
+            prove.oblige_equal(ctx, name % 'divisor_is_total_power', s, total)
+        # precondition of the statement: the input has non-zero power (numpy gives nan/inf otherwise)
+        hyp = [S.z(S.gt(v, 0))]
+        kappa = L.sqrt_scalar(ctx, S.truediv(p, v))
+        r, cc = ints(ctx, 'r', 'c')
+        inr = z3.And(r >= 0, r < S.z(n), cc >= 0, cc < S.z(m))
+
+        def clauses():
+            got, want = S.cx(res.at((r, cc))), S.cx(S.mul(a.at((r, cc)), kappa))
+            ctx.oblige(name % 'each_sample_scaled_by_kappa',
+                       z3.Implies(inr, z3.And(S.z(S.eq(got.re, want.re)), S.z(S.eq(got.im, want.im)))))
+            ctx.oblige(name % 'kappa_squared_times_total_is_p',
+                       z3.And(S.z(S.ge(kappa, 0)), S.z(S.eq(S.mul(S.mul(kappa, kappa), v), p))))
+            # sum |result|^2 = kappa^2 * sum |a|^2  (Sigma-extensionality), which is p by the clause above
+            out_power = S.sigma(0, n, lambda i: S.sigma(0, m, lambda j: S.cabs2(res.at((i, j)))))
+            if getattr(ctx, 'replaying', False):
+                prove.oblige_equal(ctx, name % 'result_has_power_p', out_power, p)
+            else:
+                prove.oblige_equal(ctx, name % 'result_power_is_kappa2_total', out_power, S.mul(total, S.mul(kappa, kappa)))
+        prove.with_hyp(ctx, hyp, clauses)
+        return z3.And(S.z(S.eq(res.shape[0], n)), S.z(S.eq(res.shape[1], m)))
+    return c
+
+
+for _dt in ('complex', 'float'):
+    _np_contract(_dt)
+NORMALIZE = ['lentil.util.normalize_power#complex', 'lentil.util.normalize_power#float']
